@@ -114,6 +114,48 @@ class State:
                      list(self.conds), list(self.events), list(self.kstack))
 
 
+def _dict_zip_as_comp(v):
+    """dict(zip(X.keys(), map(f, X.values()))) and dict(zip(X, map(f,
+    X.values()))) as {k: f(x) for k, x in X.items()}; the plain
+    dict(zip(X.keys(), X.values())) likewise."""
+    if not (isinstance(v, ast.Call) and isinstance(v.func, ast.Name)
+            and v.func.id == 'dict' and len(v.args) == 1 and not v.keywords):
+        return None
+    z = v.args[0]
+    if not (isinstance(z, ast.Call) and isinstance(z.func, ast.Name)
+            and z.func.id == 'zip' and len(z.args) == 2 and not z.keywords):
+        return None
+    ks, vs = z.args
+    fn = None
+    if isinstance(vs, ast.Call) and isinstance(vs.func, ast.Name) and \
+            vs.func.id == 'map' and len(vs.args) == 2 and not vs.keywords:
+        fn, vs = vs.args
+    mk = method_call(ks, 'keys') if isinstance(ks, ast.Call) else None
+    mv = method_call(vs, 'values') if isinstance(vs, ast.Call) else None
+    if mv is None or vs.args:
+        return None
+    base = mv[0]
+    kbase = mk[0] if mk is not None and not ks.args else ks
+    if ast.dump(kbase) != ast.dump(base):
+        return None
+    k = ast.Name(id='_dz_k', ctx=ast.Load())
+    x = ast.Name(id='_dz_v', ctx=ast.Load())
+    val = x if fn is None else ast.Call(func=fn, args=[x], keywords=[])
+    comp = ast.DictComp(
+        key=k, value=val,
+        generators=[ast.comprehension(
+            target=ast.Tuple(elts=[ast.Name(id='_dz_k', ctx=ast.Store()),
+                                   ast.Name(id='_dz_v', ctx=ast.Store())],
+                             ctx=ast.Store()),
+            iter=ast.Call(func=ast.Attribute(value=base, attr='items',
+                                             ctx=ast.Load()),
+                          args=[], keywords=[]),
+            ifs=[], is_async=0)])
+    ast.copy_location(comp, v)
+    ast.fix_missing_locations(comp)
+    return comp
+
+
 def node_target_copy(t):
     return t
 
@@ -1072,6 +1114,14 @@ class Enumerator:
                                               and st.attrs) else prim
         if isinstance(full, (ast.BoolOp, ast.UnaryOp)):
             full = prim
+        eq = self._equalities(st)
+        if eq and any(isinstance(n, ast.Name) and n.id in eq
+                      for n in ast.walk(full)):
+            # x == 'a' was established: x == 'b', x in TABLE ... fold
+            f = self._fold(subst(full, eq))
+            if f is not None:
+                yield st, (f != flip)
+                return
         f = self._fold(full)
         if f is None:
             f = self._coll_truth(prim, st)
@@ -1172,6 +1222,25 @@ class Enumerator:
         st.events.append(e)
         return e
 
+    def _equalities(self, st):
+        """{name: constant} for the tests `name == <constant>` this path
+        has taken as true (names in recorded conditions denote the values
+        the analysed function was entered with, or immutable symbols)."""
+        out = {}
+        for c in st.conds:
+            e = c.expr
+            if c.kind == 'test' and c.pol and isinstance(e, ast.Compare) \
+                    and len(e.ops) == 1 and isinstance(e.ops[0], ast.Eq):
+                l, r = e.left, e.comparators[0]
+                if isinstance(r, ast.Name) and isinstance(l, ast.Constant):
+                    l, r = r, l
+                if isinstance(l, ast.Name) and isinstance(
+                        r, ast.Constant) and isinstance(
+                            r.value, (str, int)) and not isinstance(
+                                r.value, bool):
+                    out[l.id] = r
+        return out
+
     def eval_value(self, value, st, handlers):
         """Evaluate an expression used as a value.
 
@@ -1179,6 +1248,12 @@ class Enumerator:
         (unless inlined) fresh symbols.
         """
         v = subst(value, st.env)
+        eq = self._equalities(st)
+        if eq and any(isinstance(n, ast.Subscript) and isinstance(
+                n.slice, ast.Name) and n.slice.id in eq and isinstance(
+                    n.value, ast.Dict) for n in ast.walk(v)):
+            # TABLE[x] on a path that has established x == 'key'
+            v = subst(v, eq)
         if isinstance(v, ast.IfExp):
             # a conditional expression is the branch it abbreviates
             for s, t in self.branch(v.test, st, getattr(value, 'lineno', 0),
@@ -1191,6 +1266,37 @@ class Enumerator:
             return
         yield from self._eval_substituted(v, st, handlers, value)
 
+    def _arg_ifexp(self, v):
+        """A conditional expression among the arguments of a call that has
+        no other call to evaluate: the call can be split on its test."""
+        if not isinstance(v, ast.Call) or has_call(v.func):
+            return None
+        found = None
+        calls = 0
+
+        def walk(n, top):
+            nonlocal found, calls
+            if isinstance(n, (ast.Lambda, ast.ListComp, ast.SetComp,
+                              ast.DictComp, ast.GeneratorExp)):
+                calls += 1          # opaque: do not split around it
+                return
+            if isinstance(n, ast.Call) and not top and \
+                    not self._pure_expr(n):
+                calls += 1
+            if isinstance(n, ast.IfExp) and found is None:
+                found = n
+                if any(isinstance(x, ast.Call) and not self._pure_expr(x)
+                       for x in ast.walk(n)):
+                    calls += 1
+                return
+            for c in ast.iter_child_nodes(n):
+                walk(c, False)
+        for a in list(v.args) + [k.value for k in v.keywords]:
+            walk(a, False)
+        if found is None or calls:
+            return None
+        return found
+
     def _eval_substituted(self, v, st, handlers, value):
         if isinstance(v, ast.IfExp):
             for s, t in self.branch(v.test, st, getattr(value, 'lineno', 0),
@@ -1200,6 +1306,17 @@ class Enumerator:
                     continue
                 yield from self._eval_substituted(v.body if t else v.orelse,
                                                   s, handlers, value)
+            return
+        ie = self._arg_ifexp(v)
+        if ie is not None:
+            # f(a if c else b) is f(a) when c, else f(b)
+            for s, t in self.branch(ie.test, st, getattr(value, 'lineno', 0),
+                                    True):
+                if isinstance(t, tuple):
+                    yield s, None, t
+                    continue
+                v2 = _replace_node(v, ie, ie.body if t else ie.orelse)
+                yield from self._eval_substituted(v2, s, handlers, value)
             return
         if self._first_walrus(v) is not None:
             for s, v2, rs in self._hoist_walrus(v, st, handlers, value):
@@ -1259,11 +1376,33 @@ class Enumerator:
                 else:
                     yield s, ast.Constant(value=(t != neg)), None
             return
+        if self.comps:
+            dz = _dict_zip_as_comp(v)
+            if dz is not None:
+                v = dz
         if self.comps and isinstance(v, (ast.ListComp, ast.GeneratorExp,
-                                         ast.SetComp, ast.DictComp)) and len(
-                v.generators) == 1 and not v.generators[0].is_async:
+                                         ast.SetComp, ast.DictComp)) and \
+                1 <= len(v.generators) <= 3 and not any(
+                    g.is_async for g in v.generators):
             yield from self._eval_comp(v, st, handlers, value)
             return
+        if self.comps and isinstance(v, (ast.Dict, ast.List, ast.Tuple)):
+            # a comprehension that is a value / an element of a display is
+            # built first
+            kids = list(v.values) if isinstance(v, ast.Dict) else list(v.elts)
+            nested = [k for k in kids if isinstance(k, (
+                ast.ListComp, ast.SetComp, ast.DictComp)) and 1 <= len(
+                    k.generators) <= 3 and not any(
+                        g.is_async for g in k.generators)]
+            if nested:
+                for s, acc, rs in self._eval_comp(nested[0], st, handlers,
+                                                  value):
+                    if rs is not None:
+                        yield s, None, rs
+                        continue
+                    v2 = _replace_node(v, nested[0], acc)
+                    yield from self._eval_substituted(v2, s, handlers, value)
+                return
         if (self.inline is not None or self.closures) and len(
                 self._stack) <= self.max_depth and has_call(v):
             hit = self._nested_inlinable(v)
@@ -1518,13 +1657,24 @@ class Enumerator:
                                    else 'append', ctx=ast.Load()),
                 args=[v.elt], keywords=[]))
         body = [app]
-        for c in reversed(g.ifs):
-            body = [ast.If(test=c, body=body, orelse=[])]
-        loop = ast.For(target=g.target, iter=g.iter, body=body, orelse=[])
+        # innermost generator first: each one wraps the body in its loop
+        for gi in reversed(v.generators):
+            for c in reversed(gi.ifs):
+                body = [ast.If(test=c, body=body, orelse=[])]
+            lp = ast.For(target=gi.target, iter=gi.iter, body=body,
+                         orelse=[])
+            body = [lp]
+        loop = body[0]
+        for b in ast.walk(loop):
+            if isinstance(b, (ast.stmt, ast.expr)) and not hasattr(
+                    b, 'lineno'):
+                b.lineno = b.end_lineno = line
+                b.col_offset = b.end_col_offset = 0
         loop.lineno = loop.end_lineno = line
         loop.col_offset = loop.end_col_offset = 0
         ast.fix_missing_locations(loop)
-        bound = [n.id for n in ast.walk(g.target) if isinstance(n, ast.Name)]
+        bound = [n.id for gi in v.generators for n in ast.walk(gi.target)
+                 if isinstance(n, ast.Name)]
         saved = {b: st.env.get(b) for b in bound}
         for s, status in self._for(loop, st, handlers):
             for b, old in saved.items():
@@ -2134,8 +2284,10 @@ class Enumerator:
         own = list(walk_no_nested(g.node))
         if not any(isinstance(n, (ast.Yield, ast.YieldFrom)) for n in own):
             return None
-        if any(isinstance(n, (ast.Try, ast.With)) for n in own):
-            return None
+        if any(isinstance(n, (ast.Try, ast.With)) and any(
+                isinstance(y, (ast.Yield, ast.YieldFrom))
+                for y in ast.walk(n)) for n in own):
+            return None         # the loop body would run inside the try
         for n in own:
             # yields must be statements of their own (no value sent back)
             if isinstance(n, ast.Yield):
@@ -2256,8 +2408,49 @@ class Enumerator:
                 s2.env = dict(callee_env)
                 yield s2, ('next',)
 
+    def _fuse_genexp(self, node, st):
+        """`for T in (elt for x in xs if c): BODY` - also through a name
+        bound to the generator expression - is the loop over xs with
+        `if c: T = elt; BODY` as its body (a generator expression is lazy:
+        this is the order things happen in)."""
+        if node.orelse or getattr(node, '_pv_fused', False):
+            return None
+        ge = node.iter
+        if isinstance(ge, ast.Name):
+            v = st.env.get(ge.id)
+            if isinstance(v, ast.Name) and v.id.startswith('SYM_'):
+                v = self.defs.get(v.id)
+            ge = v
+        if not isinstance(ge, ast.GeneratorExp) or any(
+                g.is_async for g in ge.generators):
+            return None
+        if len(ge.generators) > 1 and any(
+                isinstance(b, ast.Break) for s_ in node.body
+                for b in ast.walk(s_)):
+            return None
+        body = [ast.Assign(targets=[node.target], value=ge.elt)] + list(
+            node.body)
+        for gi in reversed(ge.generators):
+            for c in reversed(gi.ifs):
+                body = [ast.If(test=c, body=body, orelse=[])]
+            body = [ast.For(target=gi.target, iter=gi.iter, body=body,
+                            orelse=[])]
+        loop = body[0]
+        for b in ast.walk(loop):
+            if isinstance(b, (ast.stmt, ast.expr)) and not hasattr(
+                    b, 'lineno'):
+                b.lineno = b.end_lineno = node.lineno
+                b.col_offset = b.end_col_offset = 0
+        ast.fix_missing_locations(loop)
+        loop._pv_fused = True
+        return loop
+
     def _for(self, node, st, handlers):
         line = node.lineno
+        fg = self._fuse_genexp(node, st)
+        if fg is not None:
+            yield from self._for(fg, st, handlers)
+            return
         mf = self._desugar_map_filter(node)
         if mf is not None:
             yield from self._for(mf, st, handlers)
@@ -2436,6 +2629,9 @@ class Enumerator:
                 s.env[h.name] = self.fresh(
                     exc_expr if exc_expr is not None
                     else ('exc', self.handler_types(h)), 'x')
+                # the caught exception is an object, never None
+                self.__dict__.setdefault('_notnone', set()).add(
+                    key_of(s.env[h.name]))
             for s2, st2 in self.block(h.body, s, handlers):
                 yield from finish(s2, st2)
 
